@@ -614,3 +614,23 @@ package immutable
 //@     set got = true
 //@   call (*StreamIterators).updateChunkStat
 //@     requires [flushed_time_of_the_series_is_the_latest_time_of_the_chunk] got && arg1 == mx
+
+// ================================================================ C09: statistics builders - which row a value belongs to
+// The min / max of a column are stored with the time of the ROW that holds them. A column with nulls has fewer values
+// than rows (fixed-width values of null rows are not stored): the k-th value is not the k-th row. The time written next
+// to a new boolean minimum / maximum is therefore the time of a row that was TESTED to hold a value (or the column has
+// no null at all, and value index and row index coincide).
+//@ prop C09
+//@ func (*BooleanPreAgg).addValues
+//@   requires m != nil && col != nil
+//@   ghost tested bool = false
+//@   ghost row int = 0
+//@   ghost wasNil bool = false
+//@   call (*ColVal).IsNil
+//@     set tested = true
+//@     set row = arg0
+//@     set wasNil = ret0
+//@   store BooleanPreAgg.minTime
+//@     requires [min_time_is_the_time_of_a_row_holding_a_value] col.NilCount <= 0 || (tested && !wasNil && val == times[row])
+//@   store BooleanPreAgg.maxTime
+//@     requires [max_time_is_the_time_of_a_row_holding_a_value] col.NilCount <= 0 || (tested && !wasNil && val == times[row])
